@@ -19,6 +19,7 @@ import (
 	"verif/internal/ctfex"
 	"verif/internal/harness"
 	"verif/internal/keys"
+	"verif/internal/memstore"
 	"verif/internal/reflog"
 	"verif/internal/world"
 )
@@ -31,6 +32,7 @@ type FidCase struct {
 	Align      bool
 	Reads      [][2]int // (start, len-1) reduced modulo the tree size at run time
 	ClockMs    int64
+	Indirect   bool // external issuance-chain storage (in-memory) instead of chains inside the backend leaf
 }
 
 type FidItem struct {
@@ -58,6 +60,7 @@ func genFid(t *rapid.T) FidCase {
 		c.Reads = append(c.Reads, [2]int{rapid.IntRange(0, 20).Draw(t, "rs"), rapid.IntRange(0, 9).Draw(t, "rl")})
 	}
 	c.ClockMs = rapid.Int64Range(1, 4102444800000).Draw(t, "clock")
+	c.Indirect = rapid.IntRange(0, 2).Draw(t, "indirect") == 0
 	return c
 }
 
@@ -79,7 +82,12 @@ func checkFid(t *testing.T, c FidCase) (v harness.Verdict) {
 	be := reflog.New(6962, 1)
 	be.MaxLeavesPerRange = c.BackendMax
 	clock := ctfex.NewClock(time.UnixMilli(c.ClockMs).Add(123456 * time.Nanosecond))
-	inst, err := ctfex.New(ctfex.Opts{LogKey: keys.Pick("p256", 1), Roots: world.Roots(), Backend: be, Clock: clock})
+	o := ctfex.Opts{LogKey: keys.Pick("p256", 1), Roots: world.Roots(), Backend: be, Clock: clock}
+	if c.Indirect {
+		o.ChainStorage = memstore.New()
+		v.Class("external-chain-storage")
+	}
+	inst, err := ctfex.New(o)
 	if err != nil {
 		t.Fatalf("instance: %v", err)
 	}
@@ -90,6 +98,11 @@ func checkFid(t *testing.T, c FidCase) (v harness.Verdict) {
 	byLeafValue := map[string]stored{}
 	for i, it := range c.Items {
 		if it.Spec == nil {
+			if c.Indirect {
+				// with external chain storage the front end must interpret extra_data; opaque bytes are
+				// outside the domain there
+				continue
+			}
 			be.AppendRaw(it.Opaque, it.Extra)
 			continue
 		}
@@ -162,6 +175,10 @@ func checkFid(t *testing.T, c FidCase) (v harness.Verdict) {
 				break
 			}
 			want := be.Leaf(idx)
+			if st, ok := byLeafValue[string(want.LeafValue)]; ok && c.Indirect {
+				// the backend leaf holds the chain hash; what must be served is the RFC 6962 chain structure
+				want.ExtraData = st.built.ExtraData()
+			}
 			if !bytes.Equal(e.LeafInput, want.LeafValue) || !bytes.Equal(e.ExtraData, want.ExtraData) {
 				v.Failf("entry-bytes", "get-entries %d..%d: entry %d differs from stored leaf %d", start, end, i, idx)
 				continue
@@ -213,17 +230,27 @@ func checkFid(t *testing.T, c FidCase) (v harness.Verdict) {
 				}
 			}
 		}
-		// get-entry-and-proof for the first index of the read
-		n := start + 1 + (r[1] % (size - start))
-		eap := inst.Get("/ct/v1/get-entry-and-proof", fmt.Sprintf("leaf_index=%d&tree_size=%d", start, n))
-		if eap.Status != 200 {
-			v.Failf("entry-and-proof-refused", "get-entry-and-proof(%d,%d) on size %d: %d %s", start, n, size, eap.Status, eap.Body)
-		} else {
+		// get-entry-and-proof for the first index of the read, at a drawn tree size and at the smallest one
+		for _, n := range []int{start + 1 + (r[1] % (size - start)), start + 1} {
+			eap := inst.Get("/ct/v1/get-entry-and-proof", fmt.Sprintf("leaf_index=%d&tree_size=%d", start, n))
+			if eap.Status != 200 {
+				v.Failf("entry-and-proof-refused", "get-entry-and-proof(%d,%d) on size %d: %d %s", start, n, size, eap.Status, eap.Body)
+				continue
+			}
 			var er ct.GetEntryAndProofResponse
 			if err := json.Unmarshal(eap.Body, &er); err != nil {
 				v.Failf("bad-json", "get-entry-and-proof body: %v", err)
-			} else if want := be.Leaf(start); !bytes.Equal(er.LeafInput, want.LeafValue) || !bytes.Equal(er.ExtraData, want.ExtraData) {
-				v.Failf("entry-and-proof-bytes", "get-entry-and-proof(%d,%d) bytes differ from get-entries / stored leaf", start, n)
+				continue
+			}
+			want := be.Leaf(start)
+			if st, ok := byLeafValue[string(want.LeafValue)]; ok && c.Indirect {
+				want.ExtraData = st.built.ExtraData()
+			}
+			if !bytes.Equal(er.LeafInput, want.LeafValue) || !bytes.Equal(er.ExtraData, want.ExtraData) {
+				v.Failf("entry-and-proof-bytes", "get-entry-and-proof(%d,%d) bytes differ from get-entries / stored entry (external storage: %v)", start, n, c.Indirect)
+			}
+			if n == 1 {
+				v.Class("entry-and-proof-tree-size-1")
 			}
 		}
 	}
@@ -236,6 +263,6 @@ func checkFid(t *testing.T, c FidCase) (v harness.Verdict) {
 // Fidelity is the byte-fidelity half of C07.
 var Fidelity = harness.Define(harness.Opts{
 	Name:  "fidelity",
-	Rule:  "1-7 leaves (generated PKI chains submitted through add-chain/add-pre-chain, plus opaque leaves written straight into the reference backend), backend short reads 0-3, max in {1,2,3,7,1000}, alignment on/off, 1-5 reads; entries compared byte for byte with the reference backend and decoded with ct.LogEntryFromLeaf / client.GetRawEntries; get-entry-and-proof compared with get-entries. Non-trivial: >= 2 leaves, or a short answer, or an opaque leaf",
+	Rule:  "direct or external chain storage; 1-7 leaves (generated PKI chains submitted through add-chain/add-pre-chain, plus opaque leaves written straight into the reference backend), backend short reads 0-3, max in {1,2,3,7,1000}, alignment on/off, 1-5 reads; entries compared byte for byte with the reference backend and decoded with ct.LogEntryFromLeaf / client.GetRawEntries; get-entry-and-proof compared with get-entries. Non-trivial: >= 2 leaves, or a short answer, or an opaque leaf",
 	Quick: 250, Thorough: 2500,
 }, genFid, checkFid)
